@@ -314,7 +314,7 @@ def worker(case: Dict[str, Any]) -> CaseResult:
         spec.objects[tn] = (["VfNode"], list(meta) + [Field(extra, "String", [Arg("key", "String")])])
     spec.unions["VfSearch"] = ["VfUser", "VfPost", "VfComment"]
     spec.objects[spec.roots["query"]][1].extend([Field("vfSearch", "[VfSearch!]!", [Arg("text", "String")]), Field("vfNodes", "[VfNode!]!")])
-    sdl = spec.sdl()
+    sdl = case.get("_sdl") or spec.sdl()
     schema_ref = build_schema(sdl)
     if validate_schema(schema_ref):
         return CaseResult("inconclusive", note="invalid schema from generator", stats={"gen_invalid": 1})
@@ -533,7 +533,7 @@ def run(tier: str, seed: int) -> int:
 
 
 def replay(data) -> int:
-    case = {k: v for k, v in data["case"].items() if not k.startswith("_")}
+    case = dict(data["case"])
     res = core.run_forked([case], worker)[0]
     print("status:", res.status, res.note)
     for v in res.violations:
